@@ -13,6 +13,30 @@
       their `_file` and `_generated` forms);
     * whole-table forms: syminfo iteration (`syminfo_iter_exact`), the SHNDX companion table
       (`shndx_table_exact`), and every table theorem over the regenerated bundles (`…_generated`).
+    * FIFTH WAVE — whole files, composed with C01 (`Spec.ElfDesc`, `Layout`, `wfZ`): every table theorem through
+      `ELFFile(BytesIO(bytes)).get_section(i)` and `get_section_by_name(name)` for ANY byte string carrying a
+      well-formed description one of whose sections is the table (`symtab_file_exact`, `sysv_file_exact`,
+      `sysv_file_built_exact`, `gnu_file_exact`, `syminfo_file_exact`, `shndx_file_exact`, `by_name_section_exact`,
+      `symtab_file_by_name_exact`, `shndx_companion_exact`/`_reads`, their `_generated` forms, `built_symtab_at`):
+      tables and the tables they link to anywhere in the file, in any order.
+    * FIFTH WAVE — the link guards of the constructors (`_get_linked_strtab_section`,
+      `_get_linked_symtab_section`): which error `get_section` raises for a link of the wrong type / out of range
+      / nested, in the relaxed domain `wfZCore` (`link_wrong_type_error`, `link_beyond_file_error`,
+      `link_truncated_header_error`, `link_stray_header_wrong_type_error`, `link_nested_wrong_type_error`,
+      `link_nested_beyond_file_error`, `wfZ_link_verdict`); index tables accept any link (`shndx_file_exact`).
+    * FIFTH WAVE — names that are not valid UTF-8: the decoding model (`getSymbolD` …) reports
+      `utf8Replace` of the name bytes (`get_symbol_decoded_exact`, `iter_symbols_decoded_exact`,
+      `by_name_decoded_exact`, `sysv_lookup_decoded`, `symtab_file_decoded_exact_generated`); it is the raw model
+      on valid UTF-8 (`utf8_valid_unchanged`, `get_symbol_decoded_valid`).
+
+  Correspondence-only (no theorem; the model is compared with the library on every run):
+    * malformed contents (stream `raw`): truncated tables, `sh_entsize` 0 / not dividing `sh_size`, flipped bytes in
+      hash tables (cyclic chains, out-of-range buckets), unterminated names; `get_symbol(n)` beyond the table;
+    * GNU hash lookups when name bytes are NOT valid UTF-8 (soundness with respect to the reported name holds by
+      construction of the loop, but is not stated; the exact theorems `gnu_lookup_exact` … are over names that are
+      strings); a stray in-file header reached through an out-of-range link that happens to have an accepted type;
+      a nested link that straddles the end of the file;
+    * offsets ≥ 2^63 (`Model/Symbols.lean` does not model the seek overflow; no byte string Python can hold reaches it).
 -/
 import PyElf.Spec.Symbols
 import PyElf.Model.Symbols
@@ -24,6 +48,12 @@ import PyElf.Proofs.SymTable
 import PyElf.Proofs.HashParse
 import PyElf.Proofs.SymBuilt
 import PyElf.Proofs.SymImage
+import PyElf.Proofs.SymFile
+import PyElf.Proofs.SymLink
+import PyElf.Proofs.SymDecoded
+import PyElf.Proofs.GnuExamples
+import PyElf.Props.C01
+import PyElf.Props.TieC14File
 import PyElf.Props.TieC03
 namespace PyElf.Props.C03
 open PyElf PyElf.Spec PyElf.Model PyElf.Proofs
@@ -812,5 +842,738 @@ example (A B C : Bytes) : (A ++ B ++ C).drop 0 = A ++ (B ++ C) ∧ (A ++ B ++ C)
     ∧ (A ++ B ++ C).drop (A.length + B.length) = C ++ [] := by
   refine ⟨by simp, by simp, ?_⟩
   rw [← List.length_append, List.append_nil]; exact List.drop_left' rfl
+
+
+/-! ## whole files (fifth wave): the tables through `ELFFile(BytesIO(bytes)).get_section(i)` / `get_section_by_name`
+
+  `d` is an abstract ELF description (C01, Spec/ElfImage.lean: sections anywhere in the file, in any order,
+  compressed sections admitted: `wfZ`); `Layout d bytes` says the byte string carries it — nothing else about
+  `bytes` is constrained.  `symFileWf` / `sysvFileWf` / `gnuFileWf` / `syminfoFileWf` / `shndxFileWf`
+  (Spec/SymbolsFile.lean; decidable, evaluated by the driver on every description of the run's `file`
+  stream) say that a section of `d` IS the table: its type, its `sh_link`, and what its body holds.
+  `getSymSection` (Model/SymbolsFile.lean) mirrors `get_section` for the C03 classes; the objects it
+  returns carry the constructor arguments the table theorems above take as given, so those theorems are
+  closed over the container: nothing about offsets, header fields or the position of the linked tables
+  remains a hypothesis. -/
+
+open PyElf.Spec.C03 PyElf.Model.C03 PyElf.Proofs.C03F
+open PyElf.Proofs.C15 (fileOf file_setup exImage ExSec)
+
+/-- the file object the regenerated factory (`Model.elfStructsFor`, `Model.machineClassOf`: what the driver
+    runs) opens is, on every byte string, the one the standards-side factory opens (C14's tie) -/
+theorem open_generated (env : Env) (bytes : Bytes) :
+    openElf env Model.elfStructsFor Model.machineClassOf bytes
+      = openElf env C01.specStructs C01.specMachineClass bytes := by
+  rw [C01.specStructs_eq, C01.specMachineClass_eq]
+  exact TieC14File.openElf_generated env bytes
+
+/-- SYMBOL TABLE of a whole file: `get_section(sec)` is a SymbolTableSection whose `num_symbols()`,
+    `get_symbol(i)`, `iter_symbols()` and `get_symbol_by_name(n)` are exactly those of the entries and names
+    the description holds — the table and its string table anywhere in the file, in any order -/
+theorem symtab_file_exact (env : Env) (d : ElfDesc) (bytes : Bytes) (sec : Nat) (es : List SymE) (names : List Bytes)
+    (hwf : symFileWf env d sec es names = true) (hl : Layout d bytes) :
+    ∃ f h strOff, openElf env C01.specStructs C01.specMachineClass bytes = .ok f ∧
+      getSymSection env f sec = .ok (.symtab h strOff) ∧
+      SymtabObserved env f.S bytes d.cls h strOff es names := by
+  simp only [symFileWf, Bool.and_eq_true] at hwf
+  have F := symtabAt_unpack hwf.2
+  obtain ⟨hdr, st, X, hopen⟩ := file_setup hwf.1 hl (Nat.lt_of_le_of_lt (Nat.zero_le _) F.hi)
+  obtain ⟨hget, L⟩ := getSymSection_symtab X F
+  rw [C01.specStructs_eq, C01.specMachineClass_eq]
+  exact ⟨_, _, _, hopen, hget, symtab_observed env d.mclass d.solaris d.core L⟩
+
+/-- SYSTEM V HASH SECTION of a whole file: `get_section(hsec)` is an ELFHashSection over the symbol table its
+    `sh_link` designates; the recovered count is the table's true length; a lookup returns a symbol
+    `1 ≤ j < n` bearing the name whenever one is present, and nothing otherwise -/
+theorem sysv_file_exact (env : Env) (d : ElfDesc) (bytes : Bytes) (hsec sec : Nat) (es : List SymE) (names : List Bytes)
+    (t : SysVTable) (hwf : sysvFileWf env d hsec sec es names t = true) (hl : Layout d bytes) :
+    ∃ f params symH strOff, openElf env C01.specStructs C01.specMachineClass bytes = .ok f ∧
+      getSymSection env f hsec = .ok (.sysv params symH strOff) ∧
+      SysvObserved env f.S bytes d.cls params symH strOff es names := by
+  simp only [sysvFileWf, symFileWf, Bool.and_eq_true] at hwf
+  obtain ⟨⟨⟨hz, hsym⟩, hlk⟩, ht⟩ := hwf
+  have F := symtabAt_unpack hsym
+  have G := linkedAt_unpack hlk
+  obtain ⟨hdr, st, X, hopen⟩ := file_setup hz hl (Nat.lt_of_le_of_lt (Nat.zero_le _) F.hi)
+  obtain ⟨-, L⟩ := getSymSection_symtab X F
+  rw [C01.specStructs_eq, C01.specMachineClass_eq]
+  exact ⟨_, _, _, _, hopen, getSymSection_sysv X F G ht, sysv_observed env d.mclass d.solaris d.core L t ht⟩
+
+/-- the same over the table the linker's construction builds: the lookup returns exactly the highest-indexed
+    symbol `1 ≤ i < n` bearing the name -/
+theorem sysv_file_built_exact (env : Env) (d : ElfDesc) (bytes : Bytes) (hsec sec : Nat) (es : List SymE)
+    (names : List Bytes) (nb : Nat) (hnb : 1 ≤ nb) (hnb32 : nb < 2 ^ 32) (hn : 1 ≤ es.length) (hn32 : es.length < 2 ^ 32)
+    (hwf : (symFileWf env d sec es names && linkedAt env d hsec sec "SHT_HASH" (encSysV d.le (buildSysV names nb))) = true)
+    (hl : Layout d bytes) :
+    ∃ f params symH strOff, openElf env C01.specStructs C01.specMachineClass bytes = .ok f ∧
+      getSymSection env f hsec = .ok (.sysv params symH strOff) ∧
+      elfHashCount params = .ok (.int es.length) ∧
+      ∀ name, elfHashGetSymbol params (getSymbol f.S env bytes symH strOff) name
+          = .ok ((sysvLastNamed names name).map (symObs env.enumDecode d.cls es names)) := by
+  simp only [symFileWf, Bool.and_eq_true] at hwf
+  obtain ⟨⟨hz, hsym⟩, hlk⟩ := hwf
+  have F := symtabAt_unpack hsym
+  have G := linkedAt_unpack hlk
+  have hnl := F.nlen
+  have ht : WFSysV names (buildSysV names nb) = true := buildSysV_wf names nb (by omega) (by omega) hnb hnb32
+  obtain ⟨hdr, st, X, hopen⟩ := file_setup hz hl (Nat.lt_of_le_of_lt (Nat.zero_le _) F.hi)
+  obtain ⟨-, L⟩ := getSymSection_symtab X F
+  rw [C01.specStructs_eq, C01.specMachineClass_eq]
+  refine ⟨_, _, _, _, hopen, getSymSection_sysv X F G ht, ?_, fun name => ?_⟩
+  · rw [← hnl]; exact sysv_count names _ ht
+  · exact Proofs.C03.sysv_built_exact names nb (by omega) (by omega) hnb hnb32 _ _
+      (fun j hj => layout_getSymbol env d.mclass d.solaris d.core L j (by omega)) (fun _ _ => rfl) name
+
+/-- GNU HASH SECTION of a whole file: `get_section(hsec)` is a GNUHashSection over the symbol table its
+    `sh_link` designates; the count recovered from buckets and chain is the table's true length; a lookup
+    returns the first hashed symbol (`symoffset ≤ j < n`) bearing the name, nothing when there is none -/
+theorem gnu_file_exact (env : Env) (d : ElfDesc) (bytes : Bytes) (hsec sec : Nat) (es : List SymE) (names : List Bytes)
+    (t : GnuTable) (hwf : gnuFileWf env d hsec sec es names t = true) (hl : Layout d bytes) :
+    ∃ f g symH strOff, openElf env C01.specStructs C01.specMachineClass bytes = .ok f ∧
+      getSymSection env f hsec = .ok (.gnu g symH strOff) ∧
+      GnuObserved env f.S bytes d.le d.cls g symH strOff es names t.symoffset := by
+  simp only [gnuFileWf, symFileWf, Bool.and_eq_true] at hwf
+  obtain ⟨⟨⟨hz, hsym⟩, hlk⟩, ht⟩ := hwf
+  have F := symtabAt_unpack hsym
+  have G := linkedAt_unpack hlk
+  obtain ⟨hdr, st, X, hopen⟩ := file_setup hz hl (Nat.lt_of_le_of_lt (Nat.zero_le _) F.hi)
+  obtain ⟨-, L⟩ := getSymSection_symtab X F
+  obtain ⟨g, hget, h2, h3, h4⟩ := getSymSection_gnu X F G ht
+  rw [C01.specStructs_eq, C01.specMachineClass_eq]
+  exact ⟨_, g, _, _, hopen, hget, gnu_observed env d.mclass d.solaris d.core L t ht g h2 h3 h4⟩
+
+/-- what `GnuObserved` says of present and absent names (soundness, completeness) -/
+theorem gnu_observed_sound_complete {env : Env} {S : ElfStructs} {data : Bytes} {le : Bool} {cls : Nat} {g : GnuHash}
+    {symH : SecHdr} {strOff : Nat} {es : List SymE} {names : List Bytes} {so : Nat} (hso : so ≤ names.length)
+    (O : GnuObserved env S data le cls g symH strOff es names so) (name : Bytes) :
+    ∃ r, gnuHashGetSymbol le cls data g (getSymbol S env data symH strOff) name = .ok r ∧
+      (∀ s, r = some s → ∃ j, so ≤ j ∧ j < names.length ∧ names.getD j [] = name ∧ s = symObs env.enumDecode cls es names j) ∧
+      (r = none → ∀ i, so ≤ i → i < names.length → names.getD i [] ≠ name) := by
+  refine ⟨_, O.2 name, ?_, ?_⟩
+  · intro s hs
+    obtain ⟨j, hj, rfl⟩ := Option.map_eq_some_iff.mp hs
+    obtain ⟨h1, h2, h3, _⟩ := firstFrom_spec _ _ _ _ hj
+    exact ⟨j, h1, by omega, by simpa using h3, rfl⟩
+  · intro hnone i h1 h2 h3
+    have hf : gnuFirstNamed names so name = none := by
+      cases hf : gnuFirstNamed names so name with
+      | none => rfl
+      | some j => rw [hf] at hnone; cases hnone
+    refine firstFrom_ne_none (fun i => names.getD i [] == name) (names.length - so) so (i - so) (by omega) ?_ hf
+    rw [show so + (i - so) = i by omega]; simpa using h3
+
+/-- SUNW SYMINFO SECTION of a whole file: entries 1 … k−1 in order, each with the name of the same-numbered
+    symbol of the symbol table `sh_link` designates -/
+theorem syminfo_file_exact (env : Env) (d : ElfDesc) (bytes : Bytes) (isec sec : Nat) (es : List SymE)
+    (names : List Bytes) (si : List (Nat × Nat)) (hwf : syminfoFileWf env d isec sec es names si = true)
+    (hl : Layout d bytes) :
+    ∃ f h symH strOff, openElf env C01.specStructs C01.specMachineClass bytes = .ok f ∧
+      getSymSection env f isec = .ok (.syminfo h symH strOff) ∧
+      SyminfoObserved env f.S bytes h symH strOff si names := by
+  simp only [syminfoFileWf, symFileWf, Bool.and_eq_true, decide_eq_true_eq, List.all_eq_true] at hwf
+  obtain ⟨⟨⟨⟨⟨⟨hz, hsym⟩, hlk⟩, hent⟩, hsize⟩, hsi⟩, hle⟩ := hwf
+  have F := symtabAt_unpack hsym
+  have G := linkedAt_unpack hlk
+  obtain ⟨hdr, st, X, hopen⟩ := file_setup hz hl (Nat.lt_of_le_of_lt (Nat.zero_le _) F.hi)
+  obtain ⟨-, L⟩ := getSymSection_symtab X F
+  obtain ⟨hget, LS⟩ := getSymSection_syminfo X F G hent hsize hsi
+  rw [C01.specStructs_eq, C01.specMachineClass_eq]
+  exact ⟨_, _, _, _, hopen, hget, Proofs.C03.syminfoNum_ok LS,
+    Proofs.C03.syminfoIter_ok env d.mclass d.solaris d.core L LS hle⟩
+
+/-- EXTENDED SECTION INDEX TABLE of a whole file: `get_section(xsec)` is a SymbolTableIndexSection whose
+    `symboltable` attribute is the number in `sh_link` — ANY number: the constructor does not look at what it
+    designates — and `get_section_index(n)` is the `n`-th word -/
+theorem shndx_file_exact (env : Env) (d : ElfDesc) (bytes : Bytes) (xsec target : Nat) (ws : List Nat)
+    (hwf : shndxFileWf env d xsec target ws = true) (hl : Layout d bytes) :
+    ∃ f h, openElf env C01.specStructs C01.specMachineClass bytes = .ok f ∧
+      getSymSection env f xsec = .ok (.shndx h target) ∧
+      ∀ n (hn : n < ws.length), getSectionIndex f.S env bytes h n = .ok (.int ws[n]) := by
+  simp only [shndxFileWf, Bool.and_eq_true, decide_eq_true_eq, List.all_eq_true] at hwf
+  obtain ⟨⟨⟨hz, hlk⟩, hent⟩, hws⟩ := hwf
+  have G := linkedAt_unpack hlk
+  obtain ⟨hdr, st, X, hopen⟩ := file_setup hz hl (Nat.lt_of_le_of_lt (Nat.zero_le _) G.hi)
+  obtain ⟨hget, hidx⟩ := getSymSection_shndx X G hent hws
+  rw [C01.specStructs_eq, C01.specMachineClass_eq]
+  exact ⟨_, _, hopen, hget, hidx⟩
+
+/-- `get_section_by_name(name)` is `get_section` of the last section bearing the name, `None` when no section
+    bears it (C01's `lookup_exact`, composed): every theorem above also holds through the name — `.dynsym`,
+    `.symtab`, `.hash`, `.gnu.hash`, … — of the section -/
+theorem by_name_section_exact (env : Env) (d : ElfDesc) (bytes : Bytes) (obs : ElfObs) (f : ElfFile)
+    (hwf : d.wfZ env = true) (hl : Layout d bytes) (ho : d.observe env = .ok obs)
+    (hf : openElf env C01.specStructs C01.specMachineClass bytes = .ok f) (name : Bytes) :
+    getSymSectionByName env f name =
+      match d.indexOfName name with
+      | none => .ok none
+      | some i => (getSymSection env f i).map some := by
+  rw [C01.specStructs_eq, C01.specMachineClass_eq] at hf
+  exact getSymSectionByName_eq hwf hl ho hf name
+
+/-- in particular the symbol table by its name -/
+theorem symtab_file_by_name_exact (env : Env) (d : ElfDesc) (bytes : Bytes) (obs : ElfObs) (sec : Nat) (es : List SymE)
+    (names : List Bytes) (hwf : symFileWf env d sec es names = true) (hl : Layout d bytes)
+    (ho : d.observe env = .ok obs) (name : Bytes) (hname : d.indexOfName name = some sec) :
+    ∃ f h strOff, openElf env C01.specStructs C01.specMachineClass bytes = .ok f ∧
+      getSymSectionByName env f name = .ok (some (.symtab h strOff)) ∧
+      SymtabObserved env f.S bytes d.cls h strOff es names := by
+  obtain ⟨f, h, strOff, hf, hget, hobs⟩ := symtab_file_exact env d bytes sec es names hwf hl
+  have hz : d.wfZ env = true := by
+    simp only [symFileWf, Bool.and_eq_true] at hwf
+    exact hwf.1
+  refine ⟨f, h, strOff, hf, ?_, hobs⟩
+  rw [by_name_section_exact env d bytes obs f hz hl ho hf name, hname]
+  simp only [hget]
+  rfl
+
+/-- and a name no section bears gives `None` -/
+theorem by_name_absent (env : Env) (d : ElfDesc) (bytes : Bytes) (obs : ElfObs) (f : ElfFile)
+    (hwf : d.wfZ env = true) (hl : Layout d bytes) (ho : d.observe env = .ok obs)
+    (hf : openElf env C01.specStructs C01.specMachineClass bytes = .ok f) (name : Bytes)
+    (hname : d.indexOfName name = none) : getSymSectionByName env f name = .ok none := by
+  rw [by_name_section_exact env d bytes obs f hwf hl ho hf name, hname]
+
+/-- the whole-file symbol table theorem with everything regenerated from the library on this run: the
+    factory that opens the file, the bundle the table is read with, the code tables -/
+theorem symtab_file_exact_generated (d : ElfDesc) (bytes : Bytes) (sec : Nat) (es : List SymE) (names : List Bytes)
+    (hwf : symFileWf Model.elfEnv d sec es names = true) (hl : Layout d bytes) :
+    ∃ f h strOff, openElf Model.elfEnv Model.elfStructsFor Model.machineClassOf bytes = .ok f ∧
+      getSymSection Model.elfEnv f sec = .ok (.symtab h strOff) ∧
+      SymtabObserved Model.elfEnv f.S bytes d.cls h strOff es names := by
+  rw [open_generated]
+  exact symtab_file_exact Model.elfEnv d bytes sec es names hwf hl
+
+theorem sysv_file_exact_generated (d : ElfDesc) (bytes : Bytes) (hsec sec : Nat) (es : List SymE) (names : List Bytes)
+    (t : SysVTable) (hwf : sysvFileWf Model.elfEnv d hsec sec es names t = true) (hl : Layout d bytes) :
+    ∃ f params symH strOff, openElf Model.elfEnv Model.elfStructsFor Model.machineClassOf bytes = .ok f ∧
+      getSymSection Model.elfEnv f hsec = .ok (.sysv params symH strOff) ∧
+      SysvObserved Model.elfEnv f.S bytes d.cls params symH strOff es names := by
+  rw [open_generated]
+  exact sysv_file_exact Model.elfEnv d bytes hsec sec es names t hwf hl
+
+theorem gnu_file_exact_generated (d : ElfDesc) (bytes : Bytes) (hsec sec : Nat) (es : List SymE) (names : List Bytes)
+    (t : GnuTable) (hwf : gnuFileWf Model.elfEnv d hsec sec es names t = true) (hl : Layout d bytes) :
+    ∃ f g symH strOff, openElf Model.elfEnv Model.elfStructsFor Model.machineClassOf bytes = .ok f ∧
+      getSymSection Model.elfEnv f hsec = .ok (.gnu g symH strOff) ∧
+      GnuObserved Model.elfEnv f.S bytes d.le d.cls g symH strOff es names t.symoffset := by
+  rw [open_generated]
+  exact gnu_file_exact Model.elfEnv d bytes hsec sec es names t hwf hl
+
+theorem syminfo_file_exact_generated (d : ElfDesc) (bytes : Bytes) (isec sec : Nat) (es : List SymE)
+    (names : List Bytes) (si : List (Nat × Nat)) (hwf : syminfoFileWf Model.elfEnv d isec sec es names si = true)
+    (hl : Layout d bytes) :
+    ∃ f h symH strOff, openElf Model.elfEnv Model.elfStructsFor Model.machineClassOf bytes = .ok f ∧
+      getSymSection Model.elfEnv f isec = .ok (.syminfo h symH strOff) ∧
+      SyminfoObserved Model.elfEnv f.S bytes h symH strOff si names := by
+  rw [open_generated]
+  exact syminfo_file_exact Model.elfEnv d bytes isec sec es names si hwf hl
+
+theorem shndx_file_exact_generated (d : ElfDesc) (bytes : Bytes) (xsec target : Nat) (ws : List Nat)
+    (hwf : shndxFileWf Model.elfEnv d xsec target ws = true) (hl : Layout d bytes) :
+    ∃ f h, openElf Model.elfEnv Model.elfStructsFor Model.machineClassOf bytes = .ok f ∧
+      getSymSection Model.elfEnv f xsec = .ok (.shndx h target) ∧
+      ∀ n (hn : n < ws.length), getSectionIndex f.S Model.elfEnv bytes h n = .ok (.int ws[n]) := by
+  rw [open_generated]
+  exact shndx_file_exact Model.elfEnv d bytes xsec target ws hwf hl
+
+
+/-! Non-vacuity of the whole-file hypotheses, with the regenerated environment `Model.elfEnv`.  As in
+   C01/C09/C15 a kernel-checked `example` is not available (`ElfDesc.wfZ` goes through `Con.encodeRaw` /
+   `Con.decodeRaw`, compiled by well-founded recursion, which do not reduce in the kernel); instead a concrete
+   image is evaluated at build time by `#guard` (the build fails if it does not satisfy the hypotheses), and the
+   driver evaluates the same predicates on every description of the run's `file` stream (`file:<kind>:wf`;
+   the run aborts if it finds none). -/
+
+open PyElf.Proofs.C15 (nDynstr nVer nShstr nDynsym) in
+/-- a 32-bit image in which every table PRECEDES or FOLLOWS the table it links to in no particular order:
+    null, `.v` = the SysV hash table (linked to section 4), `.dynstr`, `.s` = the section names, `.dynsym` (two
+    entries, linked to 2), then a GNU hash table, a syminfo table and an extended index table, all linked to 4
+    and all named `.v` -/
+def exSymFile : ElfDesc :=
+  exImage 32 true
+    [{ name := [], nameOff := 0, ty := 0 },
+     { name := nVer, nameOff := 9, ty := 5, link := 4, entsize := 4, body := some (encSysV true (buildSysV [[], [0x61]] 1)) },
+     { name := nDynstr, nameOff := 1, ty := 3, body := some [0, 0x61, 0] },
+     { name := nShstr, nameOff := 12, ty := 3, body := some PyElf.Proofs.C15.exNames },
+     { name := nDynsym, nameOff := 15, ty := 11, link := 2, info := 1, entsize := 16,
+       body := some (encSymtab true 32 0 [exE0, exE1]) },
+     { name := nVer, nameOff := 9, ty := 0x6ffffff6, link := 4, body := some (encGnu true 32 (buildGnu 32 [[], [0x61]] 1 1 1 5)) },
+     { name := nVer, nameOff := 9, ty := 0x6ffffffc, link := 4, entsize := 4,
+       body := some (encSyminfo true [(0, 0), (0xffff, 5)]) },
+     { name := nVer, nameOff := 9, ty := 18, link := 4, entsize := 4, body := some (encShndx true [7, 0x12345]) }] 3
+
+#guard symFileWf Model.elfEnv exSymFile 4 [exE0, exE1] [[], [0x61]]
+#guard sysvFileWf Model.elfEnv exSymFile 1 4 [exE0, exE1] [[], [0x61]] (buildSysV [[], [0x61]] 1)
+#guard gnuFileWf Model.elfEnv exSymFile 5 4 [exE0, exE1] [[], [0x61]] (buildGnu 32 [[], [0x61]] 1 1 1 5)
+#guard syminfoFileWf Model.elfEnv exSymFile 6 4 [exE0, exE1] [[], [0x61]] [(0, 0), (0xffff, 5)]
+#guard shndxFileWf Model.elfEnv exSymFile 7 4 [7, 0x12345]
+#guard (exSymFile.observe Model.elfEnv).toOption.isSome && exSymFile.indexOfName PyElf.Proofs.C15.nDynsym == some 4
+  && exSymFile.indexOfName PyElf.Proofs.C15.nVer == some 7 && (exSymFile.assemble 3).isSome
+
+
+/-! ## sections whose `sh_link` is not what the gABI requires (fifth wave, task 1)
+
+  What `ELFFile.get_section(sec)` does — error class, or silent acceptance — when the section's link does
+  not designate a table of the required type, exactly as `_make_symbol_table_section`,
+  `_make_sunwsyminfo_table_section`, `_make_elf_hash_section`, `_make_gnu_hash_section` (through
+  `_get_linked_strtab_section` / `_get_linked_symtab_section`) and `_make_symbol_table_index_section` have
+  it.  Domain: `wfZCore` (Spec/SymbolsFile.lean) — C01's `wfZ` WITHOUT the clause that every section be
+  interpretable: the container is sound, every section's link / entry size / contents are arbitrary.
+  `linkVerdict` (Spec/SymbolsFile.lean) classifies the link of section `sec` from the description alone:
+
+    * symbol tables (SHT_SYMTAB, SHT_DYNSYM, SHT_SUNW_LDYNSYM) must name an SHT_STRTAB section;
+      syminfo, SysV hash and GNU hash sections must name an SHT_SYMTAB or SHT_DYNSYM section
+      (an SHT_SUNW_LDYNSYM table is NOT accepted as the symbol table of a hash / syminfo section);
+    * `.wrongType l`: section `l` exists and has another type (SHT_NOBITS, SHT_PROGBITS, SHT_NULL, an unnamed
+      type code, the section itself, …)  → ELFError (`link_wrong_type_error`);
+    * `.outOfRange l`: `l ≥ e_shnum`.  The code does not compare `l` with the section count; it reads a header
+      at `e_shoff + l·e_shentsize`: beyond the end of the file `_get_section_header` answers `None`, which the
+      type check subscripts → TypeError (`link_beyond_file_error`); an entry that starts inside the file but
+      does not fit → ELFParseError (`link_truncated_header_error`); otherwise the stray bytes found there are
+      taken for the linked header (silently accepted as far as the range is concerned) and judged by their
+      `sh_type` like any header (`link_stray_header_wrong_type_error`);
+    * `.linked l` with the linked symbol table's own link bad: the inner error surfaces
+      (`link_nested_wrong_type_error`, `link_nested_beyond_file_error`);
+    * `.unchecked`: SHT_SYMTAB_SHNDX — the constructor keeps `sh_link` as a number and never looks at what it
+      designates: ANY value is silently accepted (`shndx_file_exact`, whose `target` is unconstrained).
+
+  In every case the guard runs BEFORE `Section.__init__` and the `sh_entsize` asserts of
+  `SymbolTableSection.__init__` (nothing about them is assumed here), and the error is raised by
+  `get_section` itself, not by a later use of the object. -/
+
+open PyElf.Proofs.C03L in
+/-- the link designates an existing section of the wrong type: ELFError -/
+theorem link_wrong_type_error (env : Env) (d : ElfDesc) (bytes : Bytes) (sec l : Nat)
+    (hwf : wfZCore env d = true) (hl : Layout d bytes) (hv : linkVerdict env d sec = some (.wrongType l)) :
+    ∃ f, openElf env C01.specStructs C01.specMachineClass bytes = .ok f ∧
+      getSymSection env f sec = .error .elfError := by
+  obtain ⟨l', g, V, hcase⟩ := verdict_unpack hv (by intro h; cases h)
+  rcases hcase with ⟨h, _⟩ | ⟨h, lh, hldec, hbad⟩ | ⟨h, _⟩ <;> cases h
+  obtain ⟨hdr, st, X, hopen⟩ := core_setup hwf hl (Nat.lt_of_le_of_lt (Nat.zero_le _) V.hi)
+  rw [C01.specStructs_eq, C01.specMachineClass_eq]
+  exact ⟨_, hopen, getSymSection_of_guardErr X V (guard_wrongType X g hldec hbad 3)⟩
+
+open PyElf.Proofs.C03L in
+/-- the link designates no section and the entry it would be lies beyond the end of the file: TypeError
+    (`None['sh_type']`) — not ELFError, not IndexError -/
+theorem link_beyond_file_error (env : Env) (d : ElfDesc) (bytes : Bytes) (sec l : Nat)
+    (hwf : wfZCore env d = true) (hl : Layout d bytes) (hv : linkVerdict env d sec = some (.outOfRange l))
+    (hb : bytes.length < d.shoff + l * d.shentsize) :
+    ∃ f, openElf env C01.specStructs C01.specMachineClass bytes = .ok f ∧
+      getSymSection env f sec = .error .typeError := by
+  obtain ⟨l', g, V, hcase⟩ := verdict_unpack hv (by intro h; cases h)
+  rcases hcase with ⟨h, _⟩ | ⟨h, _⟩ | ⟨h, _⟩ <;> cases h
+  have hn : 0 < d.sections.length := Nat.lt_of_le_of_lt (Nat.zero_le _) V.hi
+  obtain ⟨hdr, st, X, hopen⟩ := core_setup hwf hl hn
+  rw [C01.specStructs_eq, C01.specMachineClass_eq]
+  exact ⟨_, hopen, getSymSection_of_guardErr X V (guard_beyond X g hn hb 3)⟩
+
+open PyElf.Proofs.C03L in
+/-- the entry the link would designate starts inside the file but does not fit before its end: ELFParseError -/
+theorem link_truncated_header_error (env : Env) (d : ElfDesc) (bytes : Bytes) (sec l : Nat)
+    (hwf : wfZCore env d = true) (hl : Layout d bytes) (hv : linkVerdict env d sec = some (.outOfRange l))
+    (h1 : d.shoff + l * d.shentsize ≤ bytes.length)
+    (h2 : bytes.length < d.shoff + l * d.shentsize + (16 + 6 * (d.cls / 8))) :
+    ∃ f, openElf env C01.specStructs C01.specMachineClass bytes = .ok f ∧
+      getSymSection env f sec = .error .elfParseError := by
+  obtain ⟨l', g, V, hcase⟩ := verdict_unpack hv (by intro h; cases h)
+  rcases hcase with ⟨h, _⟩ | ⟨h, _⟩ | ⟨h, _⟩ <;> cases h
+  have hn : 0 < d.sections.length := Nat.lt_of_le_of_lt (Nat.zero_le _) V.hi
+  obtain ⟨hdr, st, X, hopen⟩ := core_setup hwf hl hn
+  rw [C01.specStructs_eq, C01.specMachineClass_eq]
+  exact ⟨_, hopen, getSymSection_of_guardErr X V (guard_truncated X g hn h1 h2 3)⟩
+
+open PyElf.Proofs.C03L in
+/-- whatever header `_get_section_header(sh_link)` returns — for an out-of-range link, the stray bytes at
+    `e_shoff + l·e_shentsize` — is judged by its `sh_type`: a string-table guard rejects anything but
+    SHT_STRTAB, a symbol-table guard anything but SHT_SYMTAB / SHT_DYNSYM, with ELFError -/
+theorem link_stray_header_wrong_type_error (env : Env) (d : ElfDesc) (bytes : Bytes) (sec l : Nat)
+    (hwf : wfZCore env d = true) (hl : Layout d bytes) (hv : linkVerdict env d sec = some (.outOfRange l))
+    (f : ElfFile) (hf : openElf env C01.specStructs C01.specMachineClass bytes = .ok f) (lh t' : Val)
+    (hget : getSectionHeader env f.S bytes f.header l = .ok (some lh)) (hty : lh.getField "sh_type" = .ok t')
+    (hbad : ∀ s ∈ ["SHT_STRTAB", "SHT_SYMTAB", "SHT_DYNSYM"], isStr t' s = false) :
+    getSymSection env f sec = .error .elfError := by
+  obtain ⟨l', g, V, hcase⟩ := verdict_unpack hv (by intro h; cases h)
+  rcases hcase with ⟨h, _⟩ | ⟨h, _⟩ | ⟨h, _⟩ <;> cases h
+  have hn : 0 < d.sections.length := Nat.lt_of_le_of_lt (Nat.zero_le _) V.hi
+  obtain ⟨hdr, st, X, hopen⟩ := core_setup hwf hl hn
+  rw [C01.specStructs_eq, C01.specMachineClass_eq] at hf
+  rw [hopen] at hf
+  cases hf
+  refine getSymSection_of_guardErr X V ?_
+  cases g with
+  | strtab => exact linkedStrtabR_wrongType hget hty (hbad _ (by simp))
+  | symtab =>
+    refine linkedSymtabR_wrongType hget hty ?_
+    rw [hbad "SHT_SYMTAB" (by simp), hbad "SHT_DYNSYM" (by simp)]
+    rfl
+
+open PyElf.Proofs.C03L in
+/-- a hash / syminfo section whose link designates a symbol table of an accepted type whose OWN link
+    designates a section of the wrong type: the symbol table cannot be built, ELFError -/
+theorem link_nested_wrong_type_error (env : Env) (d : ElfDesc) (bytes : Bytes) (sec l l2 : Nat)
+    (hwf : wfZCore env d = true) (hl : Layout d bytes) (hv : linkVerdict env d sec = some (.linked l))
+    (hv2 : linkVerdict env d l = some (.wrongType l2)) :
+    ∃ f, openElf env C01.specStructs C01.specMachineClass bytes = .ok f ∧
+      getSymSection env f sec = .error .elfError := by
+  obtain ⟨l', g, V, hcase⟩ := verdict_unpack hv (by intro h; cases h)
+  rcases hcase with ⟨h, lh, hldec, hgood⟩ | ⟨h, _⟩ | ⟨h, _⟩ <;> cases h
+  obtain ⟨l2', g2, V2, hcase2⟩ := verdict_unpack hv2 (by intro h; cases h)
+  rcases hcase2 with ⟨h, _⟩ | ⟨h, lh2, hldec2, hbad2⟩ | ⟨h, _⟩ <;> cases h
+  obtain ⟨hdr, st, X, hopen⟩ := core_setup hwf hl (Nat.lt_of_le_of_lt (Nat.zero_le _) V.hi)
+  rw [C01.specStructs_eq, C01.specMachineClass_eq]
+  refine ⟨_, hopen, getSymSection_of_guardErr X V ?_⟩
+  cases g with
+  | symtab => exact guard_nested X V2 hldec hgood (guard_wrongType X g2 hldec2 hbad2 2)
+  | strtab =>
+    -- impossible: a string table has no link guard of its own
+    exfalso
+    obtain ⟨t, hty, hm⟩ := typeIn_unpack hgood
+    simp only [Guard.types, List.mem_cons, List.not_mem_nil, or_false] at hm
+    subst hm
+    obtain ⟨hv', ty', hdec', hty', hg'⟩ := V2.ty
+    rw [hldec] at hdec'
+    cases hdec'
+    rw [hty] at hty'
+    cases hty'
+    simp [guardOf] at hg'
+
+open PyElf.Proofs.C03L in
+/-- … or designates no section, beyond the end of the file: TypeError -/
+theorem link_nested_beyond_file_error (env : Env) (d : ElfDesc) (bytes : Bytes) (sec l l2 : Nat)
+    (hwf : wfZCore env d = true) (hl : Layout d bytes) (hv : linkVerdict env d sec = some (.linked l))
+    (hv2 : linkVerdict env d l = some (.outOfRange l2)) (hb : bytes.length < d.shoff + l2 * d.shentsize) :
+    ∃ f, openElf env C01.specStructs C01.specMachineClass bytes = .ok f ∧
+      getSymSection env f sec = .error .typeError := by
+  obtain ⟨l', g, V, hcase⟩ := verdict_unpack hv (by intro h; cases h)
+  rcases hcase with ⟨h, lh, hldec, hgood⟩ | ⟨h, _⟩ | ⟨h, _⟩ <;> cases h
+  obtain ⟨l2', g2, V2, hcase2⟩ := verdict_unpack hv2 (by intro h; cases h)
+  rcases hcase2 with ⟨h, _⟩ | ⟨h, _⟩ | ⟨h, _⟩ <;> cases h
+  have hn : 0 < d.sections.length := Nat.lt_of_le_of_lt (Nat.zero_le _) V.hi
+  obtain ⟨hdr, st, X, hopen⟩ := core_setup hwf hl hn
+  rw [C01.specStructs_eq, C01.specMachineClass_eq]
+  refine ⟨_, hopen, getSymSection_of_guardErr X V ?_⟩
+  cases g with
+  | symtab => exact guard_nested X V2 hldec hgood (guard_beyond X g2 hn hb 2)
+  | strtab =>
+    exfalso
+    obtain ⟨t, hty, hm⟩ := typeIn_unpack hgood
+    simp only [Guard.types, List.mem_cons, List.not_mem_nil, or_false] at hm
+    subst hm
+    obtain ⟨hv', ty', hdec', hty', hg'⟩ := V2.ty
+    rw [hldec] at hdec'
+    cases hdec'
+    rw [hty] at hty'
+    cases hty'
+    simp [guardOf] at hg'
+
+/-- the relaxed domain contains every well-formed description (so the theorems above speak about the same
+    files as C01's, plus those with arbitrary links / entry sizes / contents) -/
+theorem wfZ_imp_wfZCore (env : Env) (d : ElfDesc) (h : d.wfZ env = true) : wfZCore env d = true :=
+  Proofs.C03L.wfZ_imp_wfZCore h
+
+/-- in a well-formed description no link is of the wrong type or out of range: the verdicts `.wrongType` /
+    `.outOfRange` and `wfZ` exclude each other (the error theorems are about files outside C01's domain) -/
+theorem wfZ_link_verdict (env : Env) (d : ElfDesc) (bytes : Bytes) (sec : Nat) (v : LinkVerdict)
+    (hwf : d.wfZ env = true) (hl : Layout d bytes) (hv : linkVerdict env d sec = some v) :
+    (∃ l, v = .linked l) ∨ v = .unchecked := by
+  by_cases hu : v = .unchecked
+  · exact Or.inr hu
+  · obtain ⟨l, g, V, hcase⟩ := Proofs.C03L.verdict_unpack hv hu
+    obtain ⟨lh, hldec, hgood⟩ := Proofs.C03L.wfZ_guarded_link hwf hl V
+    rcases hcase with ⟨h, _⟩ | ⟨_, lh', hldec', hbad⟩ | ⟨_, hge⟩
+    · exact Or.inl ⟨l, h⟩
+    · rw [hldec] at hldec'
+      cases hldec'
+      rw [hgood] at hbad
+      cases hbad
+    · obtain ⟨hlt, _⟩ := decHdr_some hldec
+      omega
+
+
+open PyElf.Proofs.C15 (nDynstr nVer nShstr nDynsym) in
+/-- non-vacuity of the bad-link theorems: `exSymFile` with `.dynsym` linked to the null section (wrong type),
+    a second symbol table linked to section 99 (out of range; the file ends long before entry 99 of the
+    header table), a third linked to itself, and a hash table over an SHT_SUNW_LDYNSYM table -/
+def exBadLinkFile : ElfDesc :=
+  exImage 32 true
+    [{ name := [], nameOff := 0, ty := 0 },
+     { name := nVer, nameOff := 9, ty := 5, link := 4, entsize := 4, body := some (encSysV true (buildSysV [[], [0x61]] 1)) },
+     { name := nDynstr, nameOff := 1, ty := 3, body := some [0, 0x61, 0] },
+     { name := nShstr, nameOff := 12, ty := 3, body := some PyElf.Proofs.C15.exNames },
+     { name := nDynsym, nameOff := 15, ty := 11, link := 0, info := 1, entsize := 16,
+       body := some (encSymtab true 32 0 [exE0, exE1]) },
+     { name := nDynsym, nameOff := 15, ty := 2, link := 99, info := 1, entsize := 0, body := some [1, 2, 3] },
+     { name := nDynsym, nameOff := 15, ty := 2, link := 6, info := 1, entsize := 16, body := none },
+     { name := nDynsym, nameOff := 15, ty := 0x6ffffff3, link := 2, info := 1, entsize := 16,
+       body := some (encSymtab true 32 0 [exE0, exE1]) },
+     { name := nVer, nameOff := 9, ty := 0x6ffffff6, link := 7, body := some [] }] 3
+
+#guard wfZCore Model.elfEnv exBadLinkFile && !exBadLinkFile.wfZ Model.elfEnv && (exBadLinkFile.assemble 0).isSome
+#guard linkVerdict Model.elfEnv exBadLinkFile 4 == some (.wrongType 0)          -- `link_wrong_type_error`
+#guard linkVerdict Model.elfEnv exBadLinkFile 6 == some (.wrongType 6)          -- its own header is not a string table
+#guard linkVerdict Model.elfEnv exBadLinkFile 8 == some (.wrongType 7)          -- SHT_SUNW_LDYNSYM under a hash table
+#guard linkVerdict Model.elfEnv exBadLinkFile 5 == some (.outOfRange 99)        -- `link_beyond_file_error` …
+#guard ((exBadLinkFile.assemble 0).map fun b => decide (b.length < exBadLinkFile.shoff + 99 * exBadLinkFile.shentsize)) == some true
+#guard linkVerdict Model.elfEnv exBadLinkFile 1 == some (.linked 4)             -- `link_nested_wrong_type_error`
+#guard linkVerdict Model.elfEnv exBadLinkFile 7 == some (.linked 2) && linkVerdict Model.elfEnv exBadLinkFile 2 == some .unchecked
+#guard wfZCore Model.elfEnv exSymFile && linkVerdict Model.elfEnv exSymFile 7 == some .unchecked
+
+
+/-! ## names that are not valid UTF-8 (fifth wave, task 3)
+
+  `StringTableSection.get_string` returns `s.decode('utf-8', errors='replace')`.  The theorems above carry a
+  name as the bytes of the string table, which IS the reported `str` (through its UTF-8 encoding) when the
+  bytes are valid UTF-8.  `Model/SymbolsDecoded.lean` makes the decoding explicit — `getSymbolD`,
+  `iterSymbolsD`, `getSymbolByNameD` — with `bytes.decode('utf-8', errors='replace')` =
+  `Spec.C03.utf8Replace` (Unicode 15 §3.9: every maximal subpart of an ill-formed subsequence becomes one
+  U+FFFD; CPython's codec is trusted to implement it and is compared with `utf8Replace` on every run:
+  stream `utf8`, and every name of every table of the other streams).  For EVERY byte string found at
+  `st_name` the exact reported name is `utf8Replace` of it; the by-name map is keyed by reported names
+  (two different byte strings that decode to the same `str` are the same name); hash lookups compare reported
+  names.  The driver runs the decoding model. -/
+
+open PyElf.Proofs.C03D PyElf.Proofs.C03U
+
+/-- valid UTF-8 is reported unchanged (so on such tables the decoding model is the raw one) -/
+theorem utf8_valid_unchanged (bs : Bytes) (h : validUtf8 bs = true) : utf8Replace bs = bs :=
+  utf8Replace_of_valid bs.length bs (Nat.le_refl _) h
+
+/-- every reported name is valid UTF-8 — a `str` — whatever the bytes -/
+theorem utf8_reported_valid (bs : Bytes) : validUtf8 (utf8Replace bs) = true :=
+  validUtf8_utf8Replace bs.length bs (Nat.le_refl _)
+
+theorem utf8_idempotent (bs : Bytes) : utf8Replace (utf8Replace bs) = utf8Replace bs :=
+  utf8_valid_unchanged _ (utf8_reported_valid bs)
+
+/-- the decoding model is the raw model followed by the decoding of the name, on every input -/
+theorem get_symbol_decoded_eq (S : ElfStructs) (env : Env) (data : Bytes) (h : SecHdr) (strOff n : Nat) :
+    getSymbolD S env data h strOff n = (getSymbol S env data h strOff n).map decSym :=
+  getSymbolD_eq S env data h strOff n
+
+section decoded
+variable {le : Bool} {cls : Nat} {data : Bytes} {h : SecHdr} {strOff : Nat} {es : List SymE} {names : List Bytes}
+variable (env : Env) (m : String) (sol core : Bool)
+
+/-- `get_symbol(i)` reports the name `utf8Replace (names[i])`, for ARBITRARY name bytes -/
+theorem get_symbol_decoded_exact (L : SymtabLayout le cls data h strOff es names) (i : Nat) (hi : i < es.length) :
+    getSymbolD (Spec.elfStructs ⟨le, cls, m, sol, core⟩) env data h strOff i
+      = .ok (symObs env.enumDecode cls es (names.map utf8Replace) i) :=
+  layout_getSymbolD env m sol core L i hi
+
+theorem iter_symbols_decoded_exact (L : SymtabLayout le cls data h strOff es names) :
+    iterSymbolsD (Spec.elfStructs ⟨le, cls, m, sol, core⟩) env data h strOff
+      = .ok ((List.range es.length).map (symObs env.enumDecode cls es (names.map utf8Replace))) :=
+  layout_iterSymbolsD env m sol core L
+
+/-- `get_symbol_by_name(n)`: exactly the symbols REPORTED under `n`, in index order, or `None` -/
+theorem by_name_decoded_exact (L : SymtabLayout le cls data h strOff es names) (name : Bytes) :
+    getSymbolByNameD (Spec.elfStructs ⟨le, cls, m, sol, core⟩) env data h strOff name
+      = .ok (if byName (names.map utf8Replace) name = [] then none
+             else some ((byName (names.map utf8Replace) name).map
+                    (symObs env.enumDecode cls es (names.map utf8Replace)))) :=
+  layout_byNameD env m sol core L name
+
+/-- on valid UTF-8 names the two models agree: every theorem about `getSymbol` is one about `getSymbolD` -/
+theorem get_symbol_decoded_valid (L : SymtabLayout le cls data h strOff es names)
+    (hv : ∀ nm ∈ names, validUtf8 nm = true) (i : Nat) (hi : i < es.length) :
+    getSymbolD (Spec.elfStructs ⟨le, cls, m, sol, core⟩) env data h strOff i
+      = getSymbol (Spec.elfStructs ⟨le, cls, m, sol, core⟩) env data h strOff i :=
+  layout_getSymbolD_valid env m sol core L hv i hi
+
+/-- SysV hash lookups through the decoding model, names arbitrary bytes: what is returned is a symbol
+    `1 ≤ j < n` reported under the requested name; a requested name that is a valid string and the name (as
+    bytes) of a symbol `1 ≤ i < n` is found; a name under which no symbol is reported is not.
+    (A symbol whose name bytes are NOT valid UTF-8 sits on the chain of the hash of its bytes; a lookup
+    hashes the UTF-8 encoding of the requested string, so such a symbol is found only by accident: its
+    reported name is not the name the linker hashed.  The property's names are strings.) -/
+theorem sysv_lookup_decoded (L : SymtabLayout le cls data h strOff es names) (t : SysVTable)
+    (hwf : WFSysV names t = true) (name : Bytes) :
+    ∃ r, elfHashGetSymbol (sysvParams t) (getSymbolD (Spec.elfStructs ⟨le, cls, m, sol, core⟩) env data h strOff) name
+          = .ok r ∧
+      (∀ s, r = some s → ∃ j, 1 ≤ j ∧ j < es.length ∧ utf8Replace (names.getD j []) = name ∧
+          s = symObs env.enumDecode cls es (names.map utf8Replace) j) ∧
+      (validUtf8 name = true → (∃ i, 1 ≤ i ∧ i < es.length ∧ names.getD i [] = name) → r ≠ none) ∧
+      ((∀ i, 1 ≤ i → i < es.length → utf8Replace (names.getD i []) ≠ name) → r = none) := by
+  have hl := L.nlen
+  have hget : ∀ j, j < names.length →
+      getSymbolD (Spec.elfStructs ⟨le, cls, m, sol, core⟩) env data h strOff j
+        = .ok (symObs env.enumDecode cls es (names.map utf8Replace) j) :=
+    fun j hj => layout_getSymbolD env m sol core L j (by omega)
+  have hname : ∀ j, j < names.length →
+      (symObs env.enumDecode cls es (names.map utf8Replace) j).2 = utf8Replace (names.getD j []) :=
+    fun j _ => getD_map_utf8 names j
+  obtain ⟨r, hr, hs⟩ := sysv_sound_decoded names t _ _ name hwf hget hname
+  refine ⟨r, hr, ?_, ?_, ?_⟩
+  · intro s hsome
+    obtain ⟨j, a, b, c, e⟩ := hs s hsome
+    exact ⟨j, a, by omega, c, e⟩
+  · intro hv ⟨i, hi1, hin, hnm⟩ hnone
+    obtain ⟨j, _, _, _, hj⟩ := sysv_complete_decoded names t _ _ name hwf hget hname hv i hi1 (by omega) hnm
+    rw [hj] at hr
+    cases hr
+    cases hnone
+  · intro habs
+    have := sysv_absent_decoded names t _ _ name hwf hget hname (fun i a b => habs i a (by omega))
+    rw [this] at hr
+    cases hr
+    rfl
+
+end decoded
+
+/-- everything the property says of a SymbolTableSection, with names as Python reports them -/
+def SymtabObservedD (env : Env) (S : ElfStructs) (data : Bytes) (cls : Nat) (h : SecHdr) (strOff : Nat)
+    (es : List SymE) (names : List Bytes) : Prop :=
+  numSymbols h = .ok es.length ∧
+  (∀ i, i < es.length → getSymbolD S env data h strOff i
+      = .ok (symObs env.enumDecode cls es (names.map utf8Replace) i)) ∧
+  iterSymbolsD S env data h strOff
+      = .ok ((List.range es.length).map (symObs env.enumDecode cls es (names.map utf8Replace))) ∧
+  ∀ name, getSymbolByNameD S env data h strOff name
+    = .ok (if byName (names.map utf8Replace) name = [] then none
+           else some ((byName (names.map utf8Replace) name).map (symObs env.enumDecode cls es (names.map utf8Replace))))
+
+/-- the symbol table of a whole file with ARBITRARY name bytes, through `get_section(sec)`, regenerated
+    factory / bundle / code tables: count, every entry with its reported name, enumeration, lookup by
+    reported name -/
+theorem symtab_file_decoded_exact_generated (d : ElfDesc) (bytes : Bytes) (sec : Nat) (es : List SymE)
+    (names : List Bytes) (hwf : symFileWf Model.elfEnv d sec es names = true) (hl : Layout d bytes) :
+    ∃ f h strOff, openElf Model.elfEnv Model.elfStructsFor Model.machineClassOf bytes = .ok f ∧
+      getSymSection Model.elfEnv f sec = .ok (.symtab h strOff) ∧
+      SymtabObservedD Model.elfEnv f.S bytes d.cls h strOff es names := by
+  rw [open_generated]
+  simp only [symFileWf, Bool.and_eq_true] at hwf
+  have F := symtabAt_unpack hwf.2
+  obtain ⟨hdr, st, X, hopen⟩ := file_setup hwf.1 hl (Nat.lt_of_le_of_lt (Nat.zero_le _) F.hi)
+  obtain ⟨hget, L⟩ := getSymSection_symtab X F
+  rw [C01.specStructs_eq, C01.specMachineClass_eq]
+  exact ⟨_, _, _, hopen, hget, layout_numSymbols L,
+    fun i hi => layout_getSymbolD Model.elfEnv d.mclass d.solaris d.core L i hi,
+    layout_iterSymbolsD Model.elfEnv d.mclass d.solaris d.core L,
+    fun name => layout_byNameD Model.elfEnv d.mclass d.solaris d.core L name⟩
+
+/-! non-vacuity: byte patterns of every kind the run generates, and a table with such a name -/
+#guard utf8Replace [0x61, 0xff, 0xe2, 0x82, 0x41, 0xf0, 0x9f, 0x98, 0x80, 0xed, 0xa0, 0x80, 0xc3]
+  == [0x61] ++ replChar ++ replChar ++ [0x41, 0xf0, 0x9f, 0x98, 0x80] ++ replChar ++ replChar ++ replChar ++ replChar
+#guard utf8Replace [0xc0, 0x80] == replChar ++ replChar && utf8Replace [0xf4, 0x90, 0x80, 0x80] == replChar ++ replChar ++ replChar ++ replChar
+  && utf8Replace [0xf0, 0x9f, 0x98] == replChar && utf8Replace [0xe2, 0x82] == replChar && utf8Replace [0xc3, 0xa9] == [0xc3, 0xa9]
+  && !validUtf8 [0xff] && validUtf8 (utf8Replace [0xff])
+
+/-- two entries; the second is named by the single byte `ff` -/
+def exDataU : Bytes := encSymtab true 32 0 [exE0, exE1] ++ [0, 0xff, 0]
+
+theorem ex_layout_u : SymtabLayout true 32 exDataU ⟨0, 32, 16⟩ 32 [exE0, exE1] [[], [0xff]] where
+  hcls := Or.inl rfl
+  entpos := by decide
+  size := by decide
+  nlen := rfl
+  wf := by
+    intro i hi
+    match i, hi with
+    | 0, _ => show exE0.WF 32 = true; decide
+    | 1, _ => show exE1.WF 32 = true; decide
+  entry := by
+    intro i hi
+    match i, hi with
+    | 0, _ => exact ⟨encSym true 32 exE1 ++ [0, 0xff, 0], by show List.drop 0 exDataU = encSym true 32 exE0 ++ _; decide⟩
+    | 1, _ => exact ⟨[0, 0xff, 0], by show List.drop 16 exDataU = encSym true 32 exE1 ++ _; decide⟩
+  name := by
+    intro i hi
+    match i, hi with
+    | 0, _ => show strAt (List.drop 32 exDataU) 0 = some []; decide
+    | 1, _ => show strAt (List.drop 32 exDataU) 1 = some [0xff]; decide
+
+/-- … it is reported as U+FFFD and found under that name, not under its bytes -/
+example (env : Env) (m : String) (sol core : Bool) :
+    getSymbolByNameD (Spec.elfStructs ⟨true, 32, m, sol, core⟩) env exDataU ⟨0, 32, 16⟩ 32 [0xff]
+      = .ok (if byName ([[], [0xff]].map utf8Replace) [0xff] = [] then none
+             else some ((byName ([[], [0xff]].map utf8Replace) [0xff]).map
+                    (symObs env.enumDecode 32 [exE0, exE1] ([[], [0xff]].map utf8Replace)))) :=
+  by_name_decoded_exact env m sol core ex_layout_u [0xff]
+#guard byName ([[], [0xff]].map utf8Replace) [0xff] == [] && byName ([[], [0xff]].map utf8Replace) replChar == [1]
+
+
+/-! ### the extended section index of a symbol: the companion table found through `sh_link` -/
+
+/-- how a client finds the SHT_SYMTAB_SHNDX table of symbol table `symIdx` (scripts/readelf.py: a dict
+    `symboltable → section` over `iter_sections()`): it is the LAST index table whose `sh_link` is `symIdx`,
+    nothing when there is none — for every well-formed image -/
+theorem shndx_companion_exact (env : Env) (d : ElfDesc) (bytes : Bytes) (obs : ElfObs) (f : ElfFile)
+    (hwf : d.wfZ env = true) (hl : Layout d bytes) (ho : d.observe env = .ok obs)
+    (hf : openElf env C01.specStructs C01.specMachineClass bytes = .ok f) (symIdx : Nat) :
+    shndxCompanion env f symIdx
+      = .ok ((shndxTablesFor env d symIdx).getLast?.map fun i => (i, rawSecHdr d i)) := by
+  rw [C01.specStructs_eq, C01.specMachineClass_eq] at hf
+  exact shndxCompanion_eq hwf hl ho hf symIdx
+
+/-- … and through it the extended section index of every symbol: when `xsec` is that last table and holds the
+    words `ws`, the companion found by the scan answers `get_section_index(n) = ws[n]` -/
+theorem shndx_companion_reads (env : Env) (d : ElfDesc) (bytes : Bytes) (obs : ElfObs) (xsec sec : Nat) (ws : List Nat)
+    (hwf : shndxFileWf env d xsec sec ws = true) (hl : Layout d bytes) (ho : d.observe env = .ok obs)
+    (hlast : (shndxTablesFor env d sec).getLast? = some xsec) :
+    ∃ f h, openElf env C01.specStructs C01.specMachineClass bytes = .ok f ∧
+      shndxCompanion env f sec = .ok (some (xsec, h)) ∧
+      ∀ n (hn : n < ws.length), getSectionIndex f.S env bytes h n = .ok (.int ws[n]) := by
+  have hwf' := hwf
+  simp only [shndxFileWf, Bool.and_eq_true, decide_eq_true_eq, List.all_eq_true] at hwf'
+  obtain ⟨⟨⟨hz, hlk⟩, hent⟩, hws⟩ := hwf'
+  have G := linkedAt_unpack hlk
+  obtain ⟨hdr, st, X, hopen⟩ := file_setup hz hl (Nat.lt_of_le_of_lt (Nat.zero_le _) G.hi)
+  obtain ⟨-, hidx⟩ := getSymSection_shndx X G hent hws
+  have hc := shndxCompanion_eq hz hl ho hopen sec
+  rw [hlast] at hc
+  rw [C01.specStructs_eq, C01.specMachineClass_eq]
+  exact ⟨_, _, hopen, hc, hidx⟩
+
+#guard shndxTablesFor Model.elfEnv exSymFile 4 == [7] && shndxTablesFor Model.elfEnv exSymFile 2 == []
+
+
+/-- closing the hypothesis `symtabAt` over BUILT images: a section holding the entries `encSymtab` lays out for
+    ANY symbol list (NUL-free names — valid UTF-8 or not —, fields in range, any padding), linked to a section
+    holding the string table `buildStrtab` builds (shared or unshared), each followed by arbitrary slack, IS a
+    symbol table in the sense of `symtabAt`; with `wfZ` of the container this is `symFileWf`, so
+    `symtab_file_exact` / `sysv_file_built_exact` / `gnu_file_exact` (with `buildGnu_wf`) apply to every image
+    built from a symbol list — nothing about the contents remains a hypothesis -/
+theorem built_symtab_at (env : Env) (d : ElfDesc) (sec pad : Nat) (share : Bool) (syms : List (Bytes × SymE))
+    (slack slack2 : Bytes) (hcls : d.cls = 32 ∨ d.cls = 64)
+    (hnul : ∀ s ∈ syms, (0 : UInt8) ∉ s.1) (hwf : ∀ s ∈ syms, s.2.WF d.cls = true)
+    (hlen : (buildStrtab share (syms.map (·.1))).1.length < 2 ^ 32)
+    (hi : sec < d.sections.length)
+    (hty : ∃ h, d.decHdr env sec = some h ∧ typeIn h ["SHT_SYMTAB", "SHT_DYNSYM", "SHT_SUNW_LDYNSYM"] = true)
+    (hent : getNatD (d.sections[sec]).hdr "sh_entsize" = symSize d.cls + pad)
+    (hsize : getNatD (d.sections[sec]).hdr "sh_size" = syms.length * (symSize d.cls + pad))
+    (hbody : bodyOf (d.sections[sec])
+      = encSymtab d.le d.cls pad (builtEntries syms (buildStrtab share (syms.map (·.1))).2) ++ slack)
+    (hlink : getNatD (d.sections[sec]).hdr "sh_link" < d.sections.length)
+    (hstr : bodyOf (d.sections[getNatD (d.sections[sec]).hdr "sh_link"])
+      = (buildStrtab share (syms.map (·.1))).1 ++ slack2) :
+    symtabAt env d sec (builtEntries syms (buildStrtab share (syms.map (·.1))).2) (syms.map (·.1)) = true :=
+  built_symtabAt env d sec pad share syms slack slack2 hcls hnul hwf hlen hi hty hent hsize hbody hlink hstr
+
+/-- non-vacuity: `exSymFile`'s symbol table is such a built one (two symbols, `buildStrtab` of their names) -/
+example : buildStrtab false [[], [0x61]] = ([0, 0x61, 0], [0, 1])
+    ∧ builtEntries [([], exE0), ([0x61], { exE1 with stName := 0 })] [0, 1] = [exE0, exE1] := by decide
+
+
+/-- GNU hash lookups through the decoding model on a table whose names are valid UTF-8 (strings): exactly as
+    `gnu_lookup_exact` — the first hashed symbol bearing the name, or `None` -/
+theorem gnu_lookup_decoded_valid {le : Bool} {cls : Nat} {data : Bytes} {h : SecHdr} {strOff : Nat} {es : List SymE}
+    {names : List Bytes} (env : Env) (m : String) (sol core : Bool)
+    (L : SymtabLayout le cls data h strOff es names) (hv : ∀ nm ∈ names, validUtf8 nm = true)
+    (t : GnuTable) (hwf : WFGnu cls names t = true) (g : GnuHash) (hg : g.params = gnuParams t) (hws : g.wordsize = 4)
+    (hread : ∀ k (hk : k < t.chain.length), readHashWord le data (g.chainPos + k * 4) = .ok t.chain[k])
+    (name : Bytes) :
+    gnuHashGetSymbol le cls data g (getSymbolD (Spec.elfStructs ⟨le, cls, m, sol, core⟩) env data h strOff) name
+      = .ok ((gnuFirstNamed names t.symoffset name).map (symObs env.enumDecode cls es names)) := by
+  have hl := L.nlen
+  refine gnuHashGetSymbol_eq cls names t le data g _ _ name hwf hg hws hread (fun j hj => ?_) (fun _ _ => rfl)
+  rw [layout_getSymbolD env m sol core L j (by omega), map_utf8Replace_valid names hv]
+
+
+/-- non-vacuity of `Layout` in the relaxed domain, for every description: the image the Spec assembler produces
+    (what the run's `link` stream feeds the library) carries the description -/
+theorem assemble_layout_core (env : Env) (d : ElfDesc) (tail : Nat) (bytes : Bytes)
+    (hwf : wfZCore env d = true) (h : d.assemble tail = some bytes) : Layout d bytes :=
+  Proofs.C03L.assemble_layout_core hwf h
 
 end PyElf.Props.C03
